@@ -167,7 +167,8 @@ def pred_envs(ctx, gen, supp, extra):
 
 
 SUPPLYABLE = ["bd_address", "adv_data", "scan_data", "profile", "security_database", "public", "synchronous",
-              "applications", "profiles"]      # optional constructor parameters the driver has a value for
+              "applications", "profiles", "existing_connection", "connection", "from_json", "stack", "gatt", "client",
+              "pairing", "configuration", "scapy_config"]      # optional constructor parameters the driver has a value for
 
 
 def path_kwargs(path, opt_params):
@@ -269,7 +270,7 @@ def run(ctx):
         "Python semantics assumed by the embedding: arbitrary-precision non-negative ints, `and`/`or`/`not` used for their truth value only",
     ]
     ctx.assumptions = ["capability word < 2^24 (it is the low 24 bits of a 32-bit advertised word), command word any natural number",
-                       "the theorems cover every branch on constructor/operation arguments (GChoice); the runs call constructors with default arguments and with each optional argument the driver has a value for (not: existing_connection, connection, stack/gatt classes, pairing, from_json)"]
+                       "the theorems cover every branch on constructor/operation arguments (GChoice); the runs call constructors with default arguments and with each optional argument the driver has a value for (every optional parameter of the 40 constructors except `device`)"]
     proofs_ok, detail = ctx.check_proofs()
     ctx.log("proofs:", proofs_ok, detail.splitlines()[0][:200])
 
